@@ -348,7 +348,10 @@ pzgstrf_MemInit(int_t n, int_t annz, superlumt_options_t *superlumt_options,
 		SUPERLU_FREE(lsub);
 		SUPERLU_FREE(usub);
 	    } else {
-		zuser_free(nzumax*dword+(nzlmax+nzumax)*iword, HEAD);
+		/* pop, last first, only what the failed attempt did push */
+		if ( usub ) zuser_free(nzumax*iword, HEAD);
+		if ( lsub ) zuser_free(nzlmax*iword, HEAD);
+		if ( ucol ) zuser_free(nzumax*dword, HEAD);
 	    }
 	    nzumax /= 2;    /* reduce request */
 	    nzlmax /= 2;
